@@ -99,12 +99,12 @@ CHECKS = [
      "note": "Assumes Python's re implements ordered alternation / greedy repetition / 1-char negative look-ahead as modelled (cross-checked once against re on 300k random strings during development, not at check time); reference languages are my reading of C99.",
      "technique": "regular-language inclusion on DFAs built from re._parser syntax trees (leftmost-first determinisation) + finite abstract evaluation"},
     {"id": "C16", "engine": "E0+E1+E2", "level": "other",
-     "text": "Decides three structural causes of super-linear work: (1) no lexer regular expression has exponential degree of ambiguity (SCC criterion on the squared look-ahead-exact NFA); (2) every token is "
+     "text": "Decides the structural causes of super-linear work: (1) no lexer regular expression has exponential or polynomial (infinite) degree of ambiguity (SCC criterion on the squared, Weber-Seidl criterion on the cubed look-ahead-exact NFA); (2) every token is "
              "lexed once (append-only buffer, reset only moves an index, the lexer is re-initialised only by parse); (3) no discarded speculation that parsed a production is followed by a re-parse of the same tokens "
-             "on a path that can still succeed while the region can re-enter itself. Measured work is not claimed.",
+             "on a path that can still succeed while the region can re-enter itself, and no bracket-skipping look-ahead scan is repeated per nesting level; (4) no loop re-copies or re-traverses what its earlier iterations built (loop-carried strings / lists, deep copies, containers grown and walked in the same loop). Measured work is not claimed.",
      "design_ref": "DESIGN.md section 3, C16",
-     "note": "Polynomial (quadratic) look-ahead scans are reported in DESIGN.md but not claimed absent; step counts are run-time quantities.",
-     "technique": "ambiguity analysis of regex NFAs + abstract interpretation of speculative (mark/reset) regions with FIRST_2 feasibility"},
+     "note": "Step counts are run-time quantities and are not measured; the quadratic constructs that exist today (declarator suffix chains, adjacent string literals, the declarator-name scan) are known findings D22a-c.",
+     "technique": "ambiguity analysis of regex NFAs (EDA / IDA) + abstract interpretation of speculative (mark/reset) regions with FIRST_2 feasibility + loop-carried-value lint"},
     {"id": "C18", "engine": "E1+E2", "level": "proof",
      "text": "Proof by induction over derivations: each of the ~96 production automata extracted from the parser source consumes only Dyck-balanced, correctly paired words over ()[]{} (nonterminals counted as balanced); "
              "parse() returns only with look-ahead = end of input; speculation is consumption-neutral (every reset targets a mark of the same path, the bracket-skipping scan runs only under mark/reset); '#' tokens are never consumed "
